@@ -2557,6 +2557,12 @@ func (db *DB) checkpointWithExecutor(ctx context.Context, mode string, exec *syn
 	if verifEnabled {
 		verifTrace("chk.pre-exec", db.path, mode)
 	}
+	// A RESTART/TRUNCATE checkpoint may destroy frames committed after the
+	// copy above. If anything below fails, the next verify must not treat the
+	// shorter WAL as the expected result of our own checkpoint.
+	if mode != CheckpointModePassive {
+		exec.state.syncedToWALEnd = false
+	}
 	walFrameN, err := db.execCheckpoint(ctx, mode)
 	if err != nil {
 		return false, err
